@@ -151,6 +151,27 @@ def R1_plugin(ctx):
         okc = bool(nested) and bool(obj_sw)
         okc_walk = bool(obj_sw)
         detail = [short(x)[:60] for x in keys_used]
+    # every combination is overlaid on its own fresh copy of the source: what one combination wrote (the entries of an object
+    # option) must not be visible to the next
+    roots, fresh = [], True
+    for k in cl:
+        if k[1] not in F.bodies:
+            continue
+        for kb in tree_of(F, k[1]):
+            for c_ in kb.calls():
+                if not (c_.func.get("method") == "index_mut" or (c_.callee or "").endswith("::index_mut")) or "Value" not in (c_.callee or "") + str(c_.func.get("self_ty") or ""):
+                    continue
+                roots.append((kb, c_, _storage_root(kb, c_.args[0])))
+    for kb, c_, (kind_, what_) in roots:
+        # a copy made inside the per-combination code (clone / to_owned of the source), or — in an extracted helper — the
+        # helper's own parameter (the caller's copy is then checked at the helper's call, which the MIR inliner has merged)
+        is_copy = kind_ == "call" and re.search(r"Clone>?::clone$|::to_owned$|::clone\{", what_) is not None
+        via_param = kind_ == "param" and "{closure" not in kb.path
+        if not (is_copy or via_param):
+            fresh = False
+            ctx.bad("fresh-copy-per-combination", "the overlay of a combination writes into %s, which is not a copy of the source made for this combination: entries merged in by one combination stay visible in the following ones" % what_[:100], c_.where())
+    if fresh and roots:
+        ctx.ok("fresh-copy-per-combination", "each combination is overlaid on a clone of the source made inside the per-combination code (%d writes)" % len(roots))
     # the same axis everywhere: read position by position, the loop over the axes stores options[i][combination[i]] under keys[i]
     I = ("i",)
     aligned, why_al = False, "no loop over the axes that writes the chosen option under the axis key was found"
@@ -295,6 +316,51 @@ def _indices_from_options(F, b, tm, pushes):
     if opts not in srcs:
         return "the index lists are derived from another vector than the option lists"
     return True
+
+
+def _storage_root(body, op, depth=0):
+    """Where the storage an operand points into comes from, followed through borrows, reborrows, moves and nested
+    `index_mut` results at the MIR level (the term domain treats clone as the identity, so it cannot answer this):
+    ('call', callee) when it is the result of a call (e.g. Clone::clone), ('param', n) for a parameter (a closure's
+    parameter 1 is its environment: a captured variable), ('local', n) otherwise."""
+    if op.get("k") not in ("copy", "move") or depth > 12:
+        return ("local", "?")
+    l = op["place"]["l"]
+    if 1 <= l <= body.argc:
+        if "{closure" in body.path and l == 1:
+            # a captured variable: continue at the place the closure was created (a closure nested in the per-combination
+            # code may write into that code's own copy)
+            fi = [e.get("i") for e in op["place"]["p"] if e["k"] == "field"]
+            for cb in body.facts.bodies.values():
+                if cb is body:
+                    continue
+                for blk in cb.blocks:
+                    for st_ in blk["stmts"]:
+                        if st_["k"] == "assign" and st_["rv"]["k"] == "agg" and st_["rv"].get("agg") == "closure" and st_["rv"].get("closure") == body.path and fi and fi[0] is not None and fi[0] < len(st_["rv"]["fields"]):
+                            inner = _storage_root(cb, st_["rv"]["fields"][fi[0]], depth + 1)
+                            if inner[0] == "capture" or (inner[0] == "param" and "{closure" in cb.path):
+                                return ("capture", inner[1])
+                            if "{closure" not in cb.path:
+                                return ("capture", "a variable of %s that the per-combination closure captures (it outlives one combination)" % short_fn_name(cb.path))
+                            return inner
+            return ("capture", "a variable captured from the enclosing function (closure environment)")
+        return ("param", "parameter %d" % l)
+    ds = [d for d in body.defs.get(l, []) if not d[2]]
+    if len(ds) != 1:
+        return ("local", "local %d (assigned %d times)" % (l, len(ds)))
+    bb, j, _ = ds[0]
+    if j == "term":
+        t = body.blocks[bb]["term"]
+        ck = callee_key(t["func"]) or ""
+        if re.search(r"::index_mut$|::index$|::deref_mut$|::deref$|::as_mut$|::borrow_mut$|::get_mut$|::as_object_mut$|::as_array_mut$", ck.split("{")[0]) and t["args"]:
+            return _storage_root(body, t["args"][0], depth + 1)
+        return ("call", ck)
+    rv = body.blocks[bb]["stmts"][j]["rv"]
+    if rv["k"] in ("ref", "rawptr"):
+        return _storage_root(body, {"k": "copy", "place": rv["place"]}, depth + 1)
+    if rv["k"] == "use" and rv["op"]["k"] in ("copy", "move"):
+        return _storage_root(body, rv["op"], depth + 1)
+    return ("local", "local %d" % l)
 
 
 def R2_flatten(ctx):
